@@ -499,6 +499,12 @@ func runC03(c *Ctx) error {
 		"import \"strings\"\nprintln(strings.Repeat(\"ab\", 0), strings.Split(\"\", \"\"), strings.Split(\"abc\", \"\"), strings.Replace(\"aaa\", \"\", \"x\", -1), strings.ReplaceAll(\"aaa\", \"\", \"y\"), strings.Join(strings.Split(\"a,b\", \",\"), \"\"), strings.TrimRight(\"\", \"\"))\n",
 		"s := []int{3, 1, 2}\nt := s[1:1]\nfor i := 0; i < 5; i++ {\nt = append(t, i)\n}\nn := copy(s, s[1:])\nprintln(n, s, t)\n",
 	)
+	// a loop as the first statement of its frame (a backward jump lands on the first instruction), its condition made of
+	// operands that the optimizer fuses
+	for _, cond := range []string{"q.n > l.min", "a[0] < b[0]", "x+1 < y-1", "q.n-1 > l.min+1", "x < y-1", "len(a) > x-5 && x < 4", "!(q.n <= l.min)", "q.n > 3"} {
+		term = append(term, "type Q struct {\n\tn int\n}\ntype L struct {\n\tmin int\n}\nfunc drain(q *Q, l *L, a []int, b []int, x int, y int) int {\n\tfor "+cond+
+			" {\n\t\tq.n--\n\t\ta[0]++\n\t\tx++\n\t}\n\treturn q.n*100 + a[0]*10 + x\n}\nprintln(drain(&Q{n: 7}, &L{min: 3}, []int{0}, []int{4}, 0, 6))\n")
+	}
 	// long but flat: tens of thousands of statements with prefix operators, nested-type spellings and parentheses, none
 	// nested deeper than three - the nesting bound counts depth, not length
 	{
